@@ -279,6 +279,51 @@ def matrix_cases(T, mir):
     return cases
 
 
+def related_type_pairs(mir):
+    """(parent, child class, members, "ancestor"/"descendant"): the parent has NO member of the child's exact type but has members
+    typed with an ancestor class of the child, resp. with a class derived from the child's - computed from the tables"""
+    out = []
+    for p in mir.order:
+        types = {}
+        for m in mir.members(p):
+            types.setdefault(mir.dt(m), []).append(m["name"])
+        for c in mir.order:
+            if c in types:
+                continue
+            anc = [n for k in mir.chain(c)[1:] if k in types for n in types[k]]
+            if anc:
+                out.append((p, c, anc, "ancestor"))
+            desc = [n for k in sorted(types) if k in mir.C and c in mir.chain(k)[1:] for n in types[k]]
+            if desc:
+                out.append((p, c, desc, "descendant"))
+    return out
+
+
+def related_type_cases(T, mir):
+    """fixed, both tiers, independent of the random stream: for every pair of related_type_pairs add() must raise and leave the
+    parent unchanged (C10_none: members are matched by the child's exact type name, never by a base or a derived type).
+    ancestor pairs: {component, class name} x hint {None, the related member} x force; descendant pairs: component, hint None
+    unforced and hint = the related member forced.  One history per parent."""
+    by_parent = {}
+    for p, c, names, rel in related_type_pairs(mir):
+        base, _ = one_member_variants(T, c)
+        calls = by_parent.setdefault(p, [])
+        mark = "matrix:related-type-only:" + rel
+
+        def call(child, hint, force):
+            return {"child": child, "hint": hint, "force": force, "validate": False, "mark": mark}
+        if rel == "ancestor":
+            for child in ({"kind": "obj", "tree": base}, {"kind": "cls", "cls": c, "kw": base.get("kw", []), "form": "str"},
+                          {"kind": "cls", "cls": c, "kw": [], "form": "class"}):
+                for hint in (None, names[0]):
+                    for force in (False, True):
+                        calls.append(call(child, hint, force))
+        else:
+            calls.append(call({"kind": "obj", "tree": base}, None, False))
+            calls.append(call({"kind": "obj", "tree": base}, names[0], True))
+    return [{"enabled": False, "parent": {"cls": p, "kw": []}, "calls": calls} for p, calls in by_parent.items()]
+
+
 STORED = [
     # the witnesses of the known defects, re-run first on every run
     {"enabled": True, "parent": {"cls": "GateHHRates", "kw": [["id", {"s": "g"}], ["instances", {"i": 1}]]},
@@ -642,6 +687,10 @@ def run(ck):
             for c_ in case["calls"]:
                 c_["conv"] = cv
             fixed_matrix.append(case)
+    related = related_type_cases(T, mir)
+    ck.extra["related_type_only_pairs"] = {"ancestor": sum(1 for x in related_type_pairs(mir) if x[3] == "ancestor"),
+                                           "descendant": sum(1 for x in related_type_pairs(mir) if x[3] == "descendant")}
+    fixed_matrix.extend(related)
     cases.extend(fixed_matrix)
     ck.extra["fixed_matrix_histories"] = len(fixed_matrix)
     ck.extra["fixed_matrix_calls"] = sum(len(c_["calls"]) for c_ in fixed_matrix)
